@@ -24,6 +24,34 @@ type c15Case struct {
 	Blanks int    `json:"blanks"` // pattern of blanks inside the brackets
 	AsVar  bool   `json:"as_var"` // ASCII variable instead of a literal
 	InList bool   `json:"in_list"`
+	BadAt  int    `json:"bad_at,omitempty"` // 1-based: that element of the literal is one its type cannot hold (0 = none)
+}
+
+// badElement is a well-formed number that the item type cannot represent: it is written, so it is counted.
+func badElement(kind string) string {
+	switch kind {
+	case model.B, model.U1:
+		return "256"
+	case model.A:
+		return "300"
+	case model.I1:
+		return "-129"
+	case model.I2:
+		return "32768"
+	case model.I4:
+		return "-2147483649"
+	case model.I8:
+		return "9223372036854775808"
+	case model.U2:
+		return "65536"
+	case model.U4:
+		return "4294967296"
+	case model.U8:
+		return "18446744073709551616"
+	case model.F4, model.F8:
+		return "1e999"
+	}
+	return ""
 }
 
 func init() { registerReplay("c15", checkC15) }
@@ -111,7 +139,21 @@ func checkC15(c c15Case) (ci caseInfo, err error) {
 	if c.AsVar {
 		return checkC15Variable(c, lo, hi, decl, ci)
 	}
-	item := "<" + c.Kind + decl + literalBody(c.Kind, c.Count) + ">"
+	body := literalBody(c.Kind, c.Count)
+	bad := c.BadAt > 0 && c.BadAt <= c.Count && badElement(c.Kind) != ""
+	if bad {
+		var elems []string
+		if c.Kind == model.A {
+			for i := 0; i < c.Count; i++ {
+				elems = append(elems, "0x61")
+			}
+		} else {
+			elems = strings.Fields(body)
+		}
+		elems[c.BadAt-1] = badElement(c.Kind)
+		body = " " + strings.Join(elems, " ")
+	}
+	item := "<" + c.Kind + decl + body + ">"
 	text := "S1F1 W\n" + item + "\n."
 	if c.InList {
 		text = "S1F1 W\n<L\n  <U1 7>\n  " + item + "\n>\n."
@@ -129,6 +171,17 @@ func checkC15(c c15Case) (ci caseInfo, err error) {
 	}
 	ci.Nontrivial = near(lo) || near(hi)
 	ci.label("literal:%s", map[bool]string{true: "within", false: "outside"}[ok])
+	if bad {
+		// refused either way; but a count outside the bounds is still reported at the declaration
+		ci.label("literal:unrepresentable-element:%s", map[bool]string{true: "within", false: "outside"}[ok])
+		if len(errs) == 0 || len(msgs) != 0 {
+			return ci, fmt.Errorf("element %d (%s) cannot be held by %s: want an error and no message, got %d message(s), errors %q\n%s", c.BadAt, badElement(c.Kind), c.Kind, len(msgs), errs, text)
+		}
+		if !ok && !hasErrorAt(errs, line, col) {
+			return ci, fmt.Errorf("%d elements written, outside %s: errors %q, none of them at the declaration (Ln %d, Col %d)\n%s", c.Count, decl, errs, line, col, text)
+		}
+		return ci, nil
+	}
 	if ok {
 		if len(errs) != 0 || len(msgs) != 1 {
 			return ci, fmt.Errorf("count %d lies within %s but the text is rejected: %q\n%s", c.Count, decl, errs, text)
@@ -194,8 +247,12 @@ func checkC15Variable(c c15Case, lo, hi *big.Int, decl string, ci caseInfo) (cas
 		return ci, err
 	}
 	small := lo.IsInt64() && lo.Int64() <= 70000 && (hi == nil || (hi.IsInt64() && hi.Int64() <= 70000))
-	if small {
-		ci.label("variable:small-bounds")
+	if lo.IsInt64() && (hi == nil || hi.IsInt64()) {
+		if small {
+			ci.label("variable:small-bounds")
+		} else {
+			ci.label("variable:large-bounds-printed-back")
+		}
 		want := "<A" + model.Canonical{}.AVarSize(int(lo.Int64()), func() int {
 			if hi == nil {
 				return -1
@@ -320,6 +377,10 @@ func TestC15Enum(t *testing.T) {
 					}
 					for count := 0; count <= 5; count++ {
 						run(c15Case{Kind: kind, Form: form, Lo: fmt.Sprint(lo), Hi: fmt.Sprint(hi), Count: count, InList: (lo+hi+count)%2 == 1})
+						if count > 0 && badElement(kind) != "" {
+							// the same with one element the type cannot hold (first, last in turn)
+							run(c15Case{Kind: kind, Form: form, Lo: fmt.Sprint(lo), Hi: fmt.Sprint(hi), Count: count, InList: (lo+hi+count)%2 == 0, BadAt: 1 + (lo+hi)%count})
+						}
 					}
 				}
 			}
@@ -349,7 +410,7 @@ func TestC15Enum(t *testing.T) {
 			}
 		}
 	}
-	stats.setExtra("enum", "exhaustive: 4 declaration forms x 14 types x lower, upper, actual count in 0..5; ASCII variables for all forms/bounds 0..5 directly and through a list expansion; NewASCIINodeVariable over min -2..6 x max -3..6")
+	stats.setExtra("enum", "exhaustive: 4 declaration forms x 14 types x lower, upper, actual count in 0..5, each also with one unrepresentable element; ASCII variables for all forms/bounds 0..5 directly and through a list expansion; NewASCIINodeVariable over min -2..6 x max -3..6")
 }
 
 func genDigits(t *rapid.T) string {
@@ -395,6 +456,9 @@ func TestC15(t *testing.T) {
 		}
 		if c.AsVar {
 			c.Kind = model.A
+		}
+		if c.Count > 0 && rapid.IntRange(0, 5).Draw(t, "badElem") == 5 {
+			c.BadAt = rapid.IntRange(1, c.Count).Draw(t, "badAt")
 		}
 		return c
 	}, checkC15)
